@@ -248,7 +248,7 @@ def eq(a, b, ctx):
     if isinstance(a, (SObj, SExc)) or isinstance(b, (SObj, SExc)):
         return a is b
     if isinstance(a, SOpaque) and isinstance(b, SOpaque):
-        return a.t == b.t
+        return a.t == b.t          # (None is one value among the opaque ones: lemma none_unique in vf/contracts/base.py)
     if isinstance(a, SSlice) and isinstance(b, SSlice):
         return z_and(zb(eq(a.start, b.start, ctx)), zb(eq(a.stop, b.stop, ctx)))
     if type(a).__name__ == "SSliceDict" and type(b).__name__ == "SSliceDict":
